@@ -1,94 +1,797 @@
-// probe (temporary)
+//! C19 — SQL dump save/load round-trips table contents.
+//!
+//! Real code under test: `Database::save_sql_dump` (storage/persistence/save.rs),
+//! `vibesql_storage::parse_sql_statements` (persistence/load.rs), `vibesql_executor::load_sql_dump`
+//! (executor/persistence.rs → parser → insert/defaults.rs → insert/validation.rs), `Lexer`.
+//!
+//! Streams:
+//!  quote    model `renderStr`/`lexString` vs the writer's literal (taken from a real dump) and the real lexer
+//!  split    model `parseSqlStatements` vs `parse_sql_statements` on real dumps and on adversarial texts
+//!  scan     model coarse scanner vs the real lexer (string / delimited-identifier boundaries)
+//!  literal  model `Lit.load ∘ Lit.render` vs dump+load of a one-cell table, per (column type, value)
+//!  db       direct oracle: random databases over the supported column types, dump, load, compare
+use serde_json::json;
+use vharness::sx::hex_str;
+use vharness::*;
 use vibesql_catalog::{ColumnSchema, TableSchema};
+use vibesql_parser::{Lexer, Token};
 use vibesql_storage::{Database, Row};
-use vibesql_types::{DataType, Date, Interval, SqlValue, Time, Timestamp};
+use vibesql_types::{DataType, Date, SqlValue, Time, Timestamp};
 
-fn try_one(name: &str, dt: DataType, v: SqlValue) {
-    let dir = "/tmp/agent-c19";
-    std::fs::create_dir_all(dir).unwrap();
-    let path = format!("{}/probe.sql", dir);
-    let mut db = Database::new();
-    let schema = TableSchema::new("T".to_string(), vec![ColumnSchema::new("A".to_string(), dt, true)]);
-    db.create_table(schema).unwrap();
-    db.insert_row("T", Row::new(vec![v.clone()])).unwrap();
-    db.save_sql_dump(&path).unwrap();
-    let text = std::fs::read_to_string(&path).unwrap();
-    let line: Vec<&str> = text.lines().filter(|l| l.starts_with("INSERT") || l.starts_with("CREATE")).collect();
-    let r = std::panic::catch_unwind(|| vibesql_executor::load_sql_dump(&path));
-    match r {
-        Ok(Ok(db2)) => {
-            let rows: Vec<Vec<SqlValue>> = db2.get_table("T").map(|t| t.scan().iter().map(|r| r.values.clone()).collect()).unwrap_or_default();
-            let cols = db2.get_table("T").map(|t| format!("{:?}", t.schema.columns.iter().map(|c| (c.name.clone(), c.data_type.clone(), c.nullable)).collect::<Vec<_>>()));
-            let same = rows.len() == 1 && format!("{:?}", rows[0][0]) == format!("{:?}", v);
-            println!("{} {:<14} {:?} -> {:?}  cols={:?} | {:?}", if same { "OK  " } else { "DIFF" }, name, v, rows, cols, line);
+// ---------------------------------------------------------------- values <-> model encoding
+
+fn canon_num(neg: bool, int: &str, frac: &str) -> String {
+    let zero = int.chars().all(|c| c == '0') && frac.chars().all(|c| c == '0');
+    // -0 and 0 are the same SQL value; the sign of a zero is not compared (stated assumption)
+    let neg = neg && !zero;
+    format!("(num {} {} {})", if neg { 1 } else { 0 }, hex_str(int), hex_str(frac))
+}
+
+fn dec_text(t: &str) -> String {
+    let (neg, body) = match t.strip_prefix('-') {
+        Some(b) => (true, b),
+        None => (false, t),
+    };
+    let (i, f) = match body.split_once('.') {
+        Some((i, f)) => (i, f),
+        None => (body, ""),
+    };
+    canon_num(neg, i, f)
+}
+
+fn enc_int(i: i128) -> String {
+    format!("(int {} {})", if i < 0 { 1 } else { 0 }, hex_str(&i.unsigned_abs().to_string()))
+}
+
+fn enc_val(v: &SqlValue) -> String {
+    match v {
+        SqlValue::Null => "null".into(),
+        SqlValue::Integer(i) | SqlValue::Bigint(i) => enc_int(*i as i128),
+        SqlValue::Smallint(i) => enc_int(*i as i128),
+        SqlValue::Unsigned(u) => enc_int(*u as i128),
+        SqlValue::Numeric(f) => {
+            if f.is_nan() {
+                "numnan".into()
+            } else if f.is_infinite() {
+                format!("(numinf {})", if *f < 0.0 { 1 } else { 0 })
+            } else {
+                dec_text(&f.to_string())
+            }
         }
-        Ok(Err(e)) => println!("ERR  {:<14} {:?} -> {}  | {:?}", name, v, e.to_string().replace('\n', " "), line),
-        Err(_) => println!("PANIC {:<14} {:?} | {:?}", name, v, line),
+        SqlValue::Float(f) | SqlValue::Real(f) => {
+            if f.is_nan() {
+                "nan".into()
+            } else if f.is_infinite() {
+                format!("(inf {})", if *f < 0.0 { 1 } else { 0 })
+            } else {
+                dec_text(&f.to_string())
+            }
+        }
+        SqlValue::Double(f) => {
+            if f.is_nan() {
+                "nan".into()
+            } else if f.is_infinite() {
+                format!("(inf {})", if *f < 0.0 { 1 } else { 0 })
+            } else {
+                dec_text(&f.to_string())
+            }
+        }
+        SqlValue::Character(s) | SqlValue::Varchar(s) => format!("(str {})", hex_str(s)),
+        SqlValue::Boolean(b) => format!("(bool {})", if *b { 1 } else { 0 }),
+        SqlValue::Date(d) => format!("(date {})", hex_str(&d.to_string())),
+        SqlValue::Time(t) => format!("(time {})", hex_str(&t.to_string())),
+        SqlValue::Timestamp(t) => format!("(timestamp {})", hex_str(&t.to_string())),
+        SqlValue::Interval(i) => format!("(interval {})", hex_str(&i.to_string())),
+    }
+}
+
+/// canonical form of a model reply value `(int n ds)` / `(num n i f)` (sign of zero dropped)
+fn canon_model_val(sx: &Sx) -> String {
+    if let Some(l) = sx.as_list() {
+        let a = |i: usize| l.get(i).and_then(|x| x.as_atom()).unwrap_or("");
+        let un = |i: usize| sx::unhex_str(a(i)).unwrap_or_default();
+        match a(0) {
+            "num" => return canon_num(a(1) == "1", &un(2), &un(3)),
+            "int" => {
+                let ds = un(2);
+                let zero = ds.chars().all(|c| c == '0');
+                return format!("(int {} {})", if a(1) == "1" && !zero { 1 } else { 0 }, hex_str(&ds));
+            }
+            _ => {}
+        }
+    }
+    sx.to_string()
+}
+
+fn canon_real_val(v: &SqlValue) -> String {
+    canon_model_val(&Sx::parse(&enc_val(v)).unwrap())
+}
+
+fn ty_atom(dt: &DataType) -> Option<&'static str> {
+    Some(match dt {
+        DataType::Integer => "integer",
+        DataType::Smallint => "smallint",
+        DataType::Bigint => "bigint",
+        DataType::Numeric { .. } => "numeric",
+        DataType::Float { .. } => "float",
+        DataType::Real => "real",
+        DataType::DoublePrecision => "double",
+        DataType::Varchar { .. } => "varchar",
+        DataType::Character { .. } => "character",
+        DataType::Boolean => "boolean",
+        DataType::Date => "date",
+        DataType::Time { .. } => "time",
+        DataType::Timestamp { .. } => "timestamp",
+        _ => return None,
+    })
+}
+
+fn same_value(a: &SqlValue, b: &SqlValue) -> bool {
+    use SqlValue as V;
+    let feq = |x: f64, y: f64| x == y || (x.is_nan() && y.is_nan());
+    match (a, b) {
+        (V::Float(x), V::Float(y)) | (V::Real(x), V::Real(y)) => feq(*x as f64, *y as f64),
+        (V::Double(x), V::Double(y)) | (V::Numeric(x), V::Numeric(y)) => feq(*x, *y),
+        (V::Null, V::Null) => true,
+        _ => std::mem::discriminant(a) == std::mem::discriminant(b) && format!("{:?}", a) == format!("{:?}", b),
+    }
+}
+
+fn is_special(v: &SqlValue) -> bool {
+    match v {
+        SqlValue::Float(f) | SqlValue::Real(f) => !f.is_finite(),
+        SqlValue::Double(f) | SqlValue::Numeric(f) => !f.is_finite(),
+        _ => false,
+    }
+}
+
+// ---------------------------------------------------------------- databases
+
+#[derive(Clone, Debug)]
+struct Tbl {
+    name: String,
+    cols: Vec<(String, DataType, bool)>,
+    rows: Vec<Vec<SqlValue>>,
+}
+
+fn build(tables: &[Tbl]) -> Result<Database, String> {
+    let mut db = Database::new();
+    for t in tables {
+        let cols = t.cols.iter().map(|(n, d, nl)| ColumnSchema::new(n.clone(), d.clone(), *nl)).collect();
+        db.create_table(TableSchema::new(t.name.clone(), cols)).map_err(|e| format!("create_table: {:?}", e))?;
+        for r in &t.rows {
+            db.insert_row(&t.name, Row::new(r.clone())).map_err(|e| format!("insert_row: {:?}", e))?;
+        }
+    }
+    Ok(db)
+}
+
+fn describe(tables: &[Tbl]) -> String {
+    let mut s = String::new();
+    for t in tables {
+        s.push_str(&format!("table {} {:?}\n", t.name, t.cols));
+        for r in &t.rows {
+            s.push_str(&format!("  row {:?}\n", r));
+        }
+    }
+    s
+}
+
+enum RoundTrip {
+    Same,
+    /// the dump text, what differs
+    Differs(String, String),
+}
+
+/// the direct oracle: dump, load, compare columns and rows of every table
+fn round_trip(tables: &[Tbl], path: &str) -> RoundTrip {
+    let db = match build(tables) {
+        Ok(d) => d,
+        Err(e) => return RoundTrip::Differs(String::new(), format!("harness could not build the database: {}", e)),
+    };
+    if let Err(e) = db.save_sql_dump(path) {
+        return RoundTrip::Differs(String::new(), format!("save_sql_dump failed: {:?}", e));
+    }
+    let text = std::fs::read_to_string(path).unwrap_or_default();
+    let p = path.to_string();
+    let loaded = std::panic::catch_unwind(move || vibesql_executor::load_sql_dump(&p));
+    let db2 = match loaded {
+        Ok(Ok(d)) => d,
+        Ok(Err(e)) => return RoundTrip::Differs(text, format!("load_sql_dump failed: {}", e)),
+        Err(p) => return RoundTrip::Differs(text, format!("load_sql_dump panicked: {}", engine::panic_text(p))),
+    };
+    for t in tables {
+        let t2 = match db2.get_table(&t.name) {
+            Some(t2) => t2,
+            None => return RoundTrip::Differs(text, format!("table {} missing after load", t.name)),
+        };
+        let cols2: Vec<(String, DataType, bool)> = t2.schema.columns.iter().map(|c| (c.name.clone(), c.data_type.clone(), c.nullable)).collect();
+        if cols2 != t.cols {
+            return RoundTrip::Differs(text, format!("columns of {} differ: saved {:?} loaded {:?}", t.name, t.cols, cols2));
+        }
+        let rows2: Vec<Vec<SqlValue>> = t2.scan().iter().map(|r| r.values.clone()).collect();
+        // multiset comparison (order is not part of the property)
+        let mut unmatched: Vec<&Vec<SqlValue>> = rows2.iter().collect();
+        for r in &t.rows {
+            match unmatched.iter().position(|r2| r2.len() == r.len() && r.iter().zip(r2.iter()).all(|(a, b)| same_value(a, b))) {
+                Some(i) => {
+                    unmatched.swap_remove(i);
+                }
+                None => return RoundTrip::Differs(text, format!("row {:?} of {} not found after load; loaded rows {:?}", r, t.name, rows2)),
+            }
+        }
+        if !unmatched.is_empty() {
+            return RoundTrip::Differs(text, format!("extra rows in {} after load: {:?}", t.name, unmatched));
+        }
+    }
+    if db2.catalog.list_tables().len() != tables.len() {
+        return RoundTrip::Differs(text, format!("loaded database has tables {:?}", db2.catalog.list_tables()));
+    }
+    RoundTrip::Same
+}
+
+// ---------------------------------------------------------------- generators
+
+const NASTY: &[&str] = &[
+    "'", "''", "\\", "\\'", ";", "\n", "\r\n", "\n-- ", "--", "-- x", "\"", "`", " ", "\t", "?", ",", "(", ")", "é", "漢", "😀", "\u{a0}", "\u{2028}",
+    "a", "B", "0", "NULL", "x'y", "); DROP TABLE T; --", "\n\n", "\\\\", "\\n", "%", "_",
+];
+
+fn nasty_string(r: &mut Rng, max_pieces: u64) -> String {
+    let n = r.below(max_pieces + 1);
+    let mut s = String::new();
+    for _ in 0..n {
+        s.push_str(*r.pick(NASTY));
+    }
+    s
+}
+
+fn has_special(s: &str) -> bool {
+    s.chars().any(|c| matches!(c, '\'' | '\\' | ';' | '\n' | '\r' | '"')) || s.contains("--")
+}
+
+fn supported_types() -> Vec<DataType> {
+    vec![
+        DataType::Integer,
+        DataType::Smallint,
+        DataType::Bigint,
+        DataType::Numeric { precision: 18, scale: 4 },
+        DataType::Float { precision: 24 },
+        DataType::Real,
+        DataType::DoublePrecision,
+        DataType::Varchar { max_length: Some(400) },
+        DataType::Varchar { max_length: None },
+        DataType::Character { length: 6 },
+        DataType::Boolean,
+        DataType::Date,
+        DataType::Time { with_timezone: false },
+        DataType::Timestamp { with_timezone: false },
+        DataType::Timestamp { with_timezone: true },
+    ]
+}
+
+fn gen_f64(r: &mut Rng, allow_special: bool) -> f64 {
+    match r.below(if allow_special { 14 } else { 11 }) {
+        0 => 0.0,
+        1 => -0.0,
+        2 => r.range(-1000, 1000) as f64,
+        3 => r.range(-100000, 100000) as f64 / 64.0,
+        4 => f64::from_bits(r.next()),
+        5 => *r.pick(&[f64::MAX, f64::MIN, f64::MIN_POSITIVE, 5e-324, 1e300, -1e-300, 9007199254740993.0, 1e19, -9.223372036854775808e18, 0.1, -2.5]),
+        6 => (r.range(-9, 9) as f64) * 10f64.powi(r.range(-30, 30) as i32),
+        7 => ((r.next() as i64) >> 1) as f64,
+        8 => r.range(-999999, 999999) as f64 / 1000.0,
+        9 => 1.0 / (r.range(1, 1000) as f64),
+        10 => -(r.range(1, 1 << 40) as f64) / 3.0,
+        11 => f64::NAN,
+        12 => f64::INFINITY,
+        _ => f64::NEG_INFINITY,
+    }
+}
+
+fn fix_nan(f: f64, allow_special: bool) -> f64 {
+    if !allow_special && !f.is_finite() {
+        1.5
+    } else {
+        f
+    }
+}
+
+fn gen_value(r: &mut Rng, dt: &DataType, nullable: bool, allow_special: bool) -> SqlValue {
+    if nullable && r.chance(1, 8) {
+        return SqlValue::Null;
+    }
+    match dt {
+        DataType::Integer | DataType::Bigint => {
+            let i = match r.below(6) {
+                0 => *r.pick(&[i64::MIN, i64::MAX, i64::MIN + 1, 0, -1, 1, i32::MIN as i64, i32::MAX as i64 + 1]),
+                1 => r.range(-100, 100),
+                2 => r.next() as i64,
+                _ => r.range(-1_000_000_000_000, 1_000_000_000_000),
+            };
+            if *dt == DataType::Integer {
+                SqlValue::Integer(i)
+            } else {
+                SqlValue::Bigint(i)
+            }
+        }
+        DataType::Smallint => SqlValue::Smallint(match r.below(4) {
+            0 => *r.pick(&[i16::MIN, i16::MAX, 0, -1]),
+            _ => r.range(i16::MIN as i64, i16::MAX as i64) as i16,
+        }),
+        DataType::Numeric { .. } => SqlValue::Numeric(fix_nan(gen_f64(r, allow_special), allow_special)),
+        DataType::Float { .. } => SqlValue::Float(fix_nan(gen_f64(r, allow_special), allow_special) as f32).clone(),
+        DataType::Real => SqlValue::Real(fix_nan(gen_f64(r, allow_special), allow_special) as f32),
+        DataType::DoublePrecision => SqlValue::Double(fix_nan(gen_f64(r, allow_special), allow_special)),
+        DataType::Varchar { max_length } => {
+            let mut s = nasty_string(r, 6);
+            let cap = max_length.unwrap_or(255);
+            if s.chars().count() > cap {
+                s = s.chars().take(cap).collect();
+            }
+            SqlValue::Varchar(s)
+        }
+        DataType::Character { length } => {
+            // a CHAR(n) value is exactly n characters (blank padded)
+            let s: String = nasty_string(r, 3).chars().take(*length).collect();
+            let pad = *length - s.chars().count();
+            SqlValue::Character(format!("{}{}", s, " ".repeat(pad)))
+        }
+        DataType::Boolean => SqlValue::Boolean(r.chance(1, 2)),
+        DataType::Date => SqlValue::Date(gen_date(r)),
+        DataType::Time { .. } => SqlValue::Time(gen_time(r)),
+        DataType::Timestamp { .. } => SqlValue::Timestamp(Timestamp::new(gen_date(r), gen_time(r))),
+        _ => SqlValue::Null,
+    }
+}
+
+fn gen_date(r: &mut Rng) -> Date {
+    let y = *r.pick(&[1, 1970, 1999, 2000, 2024, 9999, 1582]);
+    let m = r.range(1, 12) as u8;
+    let d = r.range(1, 28) as u8;
+    Date::new(y, m, d).unwrap_or_else(|_| Date::new(2000, 1, 1).unwrap())
+}
+
+fn gen_time(r: &mut Rng) -> Time {
+    let ns = *r.pick(&[0u32, 0, 500_000_000, 123_456_789, 1, 999_999_999, 120_000]);
+    Time::new(r.range(0, 23) as u8, r.range(0, 59) as u8, r.range(0, 59) as u8, ns).unwrap()
+}
+
+fn gen_db(r: &mut Rng, allow_special: bool) -> Vec<Tbl> {
+    let types = supported_types();
+    let nt = r.range(1, 3) as usize;
+    let mut out = vec![];
+    for ti in 0..nt {
+        let nc = r.range(1, 5) as usize;
+        let mut cols = vec![];
+        for ci in 0..nc {
+            cols.push((format!("C{}", ci), r.pick(&types).clone(), r.chance(3, 4)));
+        }
+        let nr = match r.below(8) {
+            0 => 0,
+            1 => 1,
+            _ => r.range(2, 9) as usize,
+        };
+        let rows = (0..nr).map(|_| cols.iter().map(|(_, d, nl)| gen_value(r, d, *nl, allow_special)).collect()).collect();
+        out.push(Tbl { name: format!("T{}", ti), cols, rows });
+    }
+    out
+}
+
+// ---------------------------------------------------------------- streams
+
+fn tokens_of(s: &str) -> Result<Vec<Token>, String> {
+    let owned = s.to_string();
+    match std::panic::catch_unwind(move || Lexer::new(&owned).tokenize()) {
+        Ok(Ok(t)) => Ok(t),
+        Ok(Err(e)) => Err(e.message),
+        Err(_) => Err("panic".into()),
+    }
+}
+
+/// quote stream: the writer's literal for `s` (from a real dump), the splitter on that dump, the lexer
+fn quote_case(s: &str, rest: &str, path: &str, model: &mut model::Model, rep: &mut Report) {
+    let id = format!("quote {} {}", hex_str(s), hex_str(rest));
+    rep.case(&id, has_special(s));
+    rep.count(if has_special(s) { "quote_special" } else { "quote_plain" });
+    let t = Tbl { name: "T".into(), cols: vec![("A".into(), DataType::Varchar { max_length: Some(400) }, true)], rows: vec![vec![SqlValue::Varchar(s.to_string())], vec![SqlValue::Integer(0); 0]] };
+    let t = Tbl { rows: vec![t.rows[0].clone()], ..t };
+    let db = build(&[t.clone()]).unwrap();
+    db.save_sql_dump(path).unwrap();
+    let text = std::fs::read_to_string(path).unwrap();
+    // --- splitter: model vs code on the real dump
+    let real = vibesql_storage::parse_sql_statements(&text).unwrap_or_default();
+    let reply = model.ask(&format!("split {}", hex_str(&text)));
+    let want = format!("(stmts{})", real.iter().map(|x| format!(" {}", hex_str(x))).collect::<String>());
+    rep.traces_validated += 1;
+    if reply != want {
+        rep.fail(FailKind::ModelDiff, None, "splitter: model and parse_sql_statements disagree on a real dump", &format!("dump text (hex): {}\ncode: {}\nmodel: {}", hex_str(&text), want, reply));
+    }
+    // --- oracle on the splitter: the INSERT statement must come back as the writer wrote it
+    let lit_model = sx::unhex_str(&model.ask(&format!("render {}", hex_str(s)))).unwrap_or_default();
+    let want_stmt = format!("INSERT INTO T VALUES ({})", lit_model);
+    let got: Vec<&str> = real.iter().map(|x| x.trim()).filter(|x| x.starts_with("INSERT")).collect();
+    if got != vec![want_stmt.as_str()] {
+        // either the writer quotes differently from the model or the splitter damaged the statement
+        let in_text = text.contains(&format!("{};\n", want_stmt));
+        if in_text {
+            rep.fail(FailKind::Oracle, None, "splitter does not return the INSERT statement the writer wrote", &format!("value: {:?}\ndump:\n{}\nstatements: {:?}", s, text, real));
+        } else {
+            rep.fail(FailKind::ModelDiff, None, "writer's string literal differs from the model's renderStr", &format!("value: {:?}\nmodel literal: {}\ndump:\n{}", s, lit_model, text));
+        }
+        return;
+    }
+    // --- lexer: model lexString vs real lexer on literal ++ rest
+    let input = format!("{}{}", lit_model, rest);
+    let reply = model.ask(&format!("lexstr {}", hex_str(&input)));
+    let real_toks = tokens_of(&input);
+    rep.traces_validated += 1;
+    match Sx::parse(&reply) {
+        Some(Sx::List(l)) if l.first().and_then(|x| x.as_atom()) == Some("ok") => {
+            let content = sx::unhex_str(l[1].as_atom().unwrap()).unwrap();
+            let mrest = sx::unhex_str(l[2].as_atom().unwrap()).unwrap();
+            let expect = tokens_of(&mrest).map(|t| {
+                let mut v = vec![Token::String(content.clone())];
+                v.extend(t);
+                v
+            });
+            let agree = match (&real_toks, &expect) {
+                (Ok(a), Ok(b)) => a == b,
+                (Err(_), Err(_)) => true,
+                _ => false,
+            };
+            if !agree {
+                rep.fail(FailKind::ModelDiff, None, "lexer string rule: model and Lexer disagree", &format!("input: {:?}\ncode: {:?}\nmodel: content {:?} rest {:?}", input, real_toks, content, mrest));
+            }
+            // direct oracle (T1): when rest does not start with a quote the token is the value itself
+            if !rest.starts_with('\'') {
+                let ok = matches!(&real_toks, Ok(t) if t.first() == Some(&Token::String(s.to_string()))) || (real_toks.is_err() && tokens_of(rest).is_err());
+                if !ok {
+                    rep.fail(FailKind::Oracle, None, "the lexer does not read back the string the writer quoted", &format!("value: {:?}\ninput: {:?}\ntokens: {:?}", s, input, real_toks));
+                }
+            }
+        }
+        _ => {
+            if real_toks.is_ok() {
+                rep.fail(FailKind::ModelDiff, None, "lexer string rule: model fails where Lexer succeeds", &format!("input: {:?}\ncode: {:?}\nmodel: {}", input, real_toks, reply));
+            }
+        }
+    }
+}
+
+fn split_fuzz_case(text: &str, model: &mut model::Model, rep: &mut Report) {
+    let real = vibesql_storage::parse_sql_statements(text).unwrap_or_default();
+    let reply = model.ask(&format!("split {}", hex_str(text)));
+    let want = format!("(stmts{})", real.iter().map(|x| format!(" {}", hex_str(x))).collect::<String>());
+    rep.case(&format!("split {}", hex_str(text)), real.len() >= 1 && text.contains('\''));
+    rep.count(&format!("split_fuzz_statements_{}", real.len().min(4)));
+    rep.traces_validated += 1;
+    if reply != want {
+        rep.fail(FailKind::ModelDiff, None, "splitter: model and parse_sql_statements disagree", &format!("text: {:?}\ntext (hex): {}\ncode: {:?}\nmodel: {}", text, hex_str(text), real, reply));
+    }
+}
+
+fn token_text(t: &Token) -> String {
+    match t {
+        Token::Keyword(k) => format!("{}", k),
+        Token::Identifier(s) => s.clone(),
+        Token::Number(n) => n.clone(),
+        Token::Symbol(c) => c.to_string(),
+        Token::Operator(o) => o.clone(),
+        Token::SessionVariable(v) => format!("@@{}", v),
+        Token::UserVariable(v) => format!("@{}", v),
+        Token::Semicolon => ";".into(),
+        Token::Comma => ",".into(),
+        Token::LParen => "(".into(),
+        Token::RParen => ")".into(),
+        _ => String::new(),
+    }
+}
+
+/// real tokens at the scanner's granularity: (s hex) (i hex) and merged others (o TEXT-uppercased)
+fn coarse_real(toks: &[Token]) -> Vec<String> {
+    let mut out: Vec<String> = vec![];
+    let mut other = String::new();
+    for t in toks {
+        match t {
+            Token::String(s) => {
+                if !other.is_empty() {
+                    out.push(format!("(o {})", hex_str(&std::mem::take(&mut other))));
+                }
+                out.push(format!("(s {})", hex_str(s)));
+            }
+            Token::DelimitedIdentifier(s) => {
+                if !other.is_empty() {
+                    out.push(format!("(o {})", hex_str(&std::mem::take(&mut other))));
+                }
+                out.push(format!("(i {})", hex_str(s)));
+            }
+            Token::Eof => {}
+            t => other.push_str(&token_text(t).to_uppercase()),
+        }
+    }
+    if !other.is_empty() {
+        out.push(format!("(o {})", hex_str(&other)));
+    }
+    out
+}
+
+fn scan_case(text: &str, model: &mut model::Model, rep: &mut Report) {
+    let real = tokens_of(text);
+    let reply = model.ask(&format!("scan {}", hex_str(text)));
+    let quoted = text.contains('\'') || text.contains('"') || text.contains("--");
+    rep.case(&format!("scan {}", hex_str(text)), quoted);
+    match (&real, Sx::parse(&reply)) {
+        (Ok(toks), Some(Sx::List(l))) if l.first().and_then(|x| x.as_atom()) == Some("pieces") => {
+            rep.count("scan_ok");
+            rep.traces_validated += 1;
+            let want = coarse_real(toks);
+            let got: Vec<String> = l[1..]
+                .iter()
+                .map(|p| match p.as_list() {
+                    Some([Sx::Atom(k), Sx::Atom(h)]) if k == "o" => format!("(o {})", hex_str(&sx::unhex_str(h).unwrap_or_default().to_uppercase())),
+                    _ => p.to_string(),
+                })
+                .collect();
+            if want != got {
+                rep.fail(FailKind::ModelDiff, None, "scanner: model pieces and Lexer tokens disagree", &format!("text: {:?}\ncode: {:?}\n  coarse: {:?}\nmodel: {}", text, toks, want, reply));
+            }
+        }
+        (Err(m), Some(Sx::List(l))) if l.first().and_then(|x| x.as_atom()) == Some("err") => {
+            rep.count("scan_both_error");
+            let kind = l[1].as_atom().unwrap_or("");
+            let agree = (kind == "unterminated" && m.contains("Unterminated")) || (kind == "emptyident" && m.contains("Empty delimited"));
+            if !agree {
+                // an earlier non-quoting error of the real lexer (number / operator / stray char) hides ours
+                rep.count("scan_error_kinds_not_comparable");
+            }
+        }
+        (Err(m), _) => {
+            // the coarse model has no number / operator / stray-character errors
+            if m.contains("Unterminated") || m.contains("Empty delimited") {
+                rep.fail(FailKind::ModelDiff, None, "scanner: Lexer reports a quoting error the model does not", &format!("text: {:?}\ncode: {}\nmodel: {}", text, m, reply));
+            } else {
+                rep.count("scan_real_error_outside_model");
+            }
+        }
+        (Ok(toks), _) => {
+            rep.fail(FailKind::ModelDiff, None, "scanner: model reports an error where Lexer succeeds", &format!("text: {:?}\ncode: {:?}\nmodel: {}", text, toks, reply));
+        }
+    }
+}
+
+/// literal stream: one cell of a given column type
+fn literal_case(dt: &DataType, v: &SqlValue, path: &str, model: &mut model::Model, rep: &mut Report) -> bool {
+    let ty = ty_atom(dt).unwrap();
+    let id = format!("lit {} {}", ty, enc_val(v));
+    let interesting = match v {
+        SqlValue::Null => false,
+        SqlValue::Integer(i) | SqlValue::Bigint(i) => *i < 0 || *i > i32::MAX as i64,
+        SqlValue::Smallint(_) => true,
+        SqlValue::Varchar(s) | SqlValue::Character(s) => has_special(s),
+        SqlValue::Numeric(f) | SqlValue::Double(f) => *f < 0.0 || f.fract() == 0.0 || !f.is_finite(),
+        SqlValue::Float(f) | SqlValue::Real(f) => *f < 0.0 || f.fract() == 0.0 || !f.is_finite(),
+        _ => true,
+    };
+    rep.case(&id, interesting);
+    rep.count(&format!("lit_type_{}", ty));
+    let t = Tbl { name: "T".into(), cols: vec![("A".into(), dt.clone(), true)], rows: vec![vec![v.clone()]] };
+    let reply = model.ask(&format!("lit {} {}", ty, enc_val(v)));
+    let msx = Sx::parse(&reply);
+    let model_ok: Option<String> = match &msx {
+        Some(Sx::List(l)) if l.first().and_then(|x| x.as_atom()) == Some("ok") => Some(canon_model_val(&l[1])),
+        _ => None,
+    };
+    let rt = round_trip(&[t.clone()], path);
+    rep.traces_validated += 1;
+    let real_same = matches!(rt, RoundTrip::Same);
+    // model vs code: the model accepts the literal with the same value  <=>  the real reload gives the same value
+    let model_same = model_ok.as_deref() == Some(canon_real_val(v).as_str());
+    if model_same != real_same {
+        let detail = match &rt {
+            RoundTrip::Same => "reload gives the same value".to_string(),
+            RoundTrip::Differs(text, why) => format!("{}\ndump:\n{}", why, text),
+        };
+        rep.fail(FailKind::ModelDiff, None, "literal: model and dump/load disagree", &format!("column type {:?} value {:?}\nmodel: {}\ncode: {}", dt, v, reply, detail));
+    }
+    // direct oracle
+    if let RoundTrip::Differs(text, why) = &rt {
+        let sig = if is_special(v) { Some("C19/special-float") } else { None };
+        if sig.is_some() {
+            rep.count("lit_special_float_failures");
+        }
+        rep.fail(FailKind::Oracle, sig, "a one-cell table does not reload from its SQL dump", &format!("column type {:?} value {:?}\n{}\ndump:\n{}", dt, v, why, text));
+    }
+    real_same
+}
+
+fn db_case(tables: &[Tbl], path: &str, rep: &mut Report) {
+    let nrows: usize = tables.iter().map(|t| t.rows.len()).sum();
+    let special_strings = tables.iter().flat_map(|t| t.rows.iter()).flatten().any(|v| matches!(v, SqlValue::Varchar(s) | SqlValue::Character(s) if has_special(s)));
+    let negatives = tables.iter().flat_map(|t| t.rows.iter()).flatten().any(|v| enc_val(v).starts_with("(int 1") || enc_val(v).starts_with("(num 1"));
+    rep.case(&format!("db {:?}", tables), nrows > 0 && (special_strings || negatives));
+    rep.count(&format!("db_tables_{}", tables.len()));
+    rep.add("db_rows", nrows as u64);
+    if special_strings {
+        rep.count("db_with_special_strings");
+    }
+    if negatives {
+        rep.count("db_with_negative_numbers");
+    }
+    for t in tables {
+        for (_, d, _) in &t.cols {
+            rep.count(&format!("db_col_{}", ty_atom(d).unwrap_or("other")));
+        }
+    }
+    if let RoundTrip::Differs(text, why) = round_trip(tables, path) {
+        // shrink: is the failure due to special floats alone?
+        let has_sp = tables.iter().flat_map(|t| t.rows.iter()).flatten().any(is_special);
+        let mut sig = None;
+        if has_sp {
+            let without: Vec<Tbl> = tables
+                .iter()
+                .map(|t| Tbl { rows: t.rows.iter().filter(|r| !r.iter().any(is_special)).cloned().collect(), ..t.clone() })
+                .collect();
+            if matches!(round_trip(&without, path), RoundTrip::Same) {
+                sig = Some("C19/special-float");
+            }
+        }
+        rep.fail(FailKind::Oracle, sig, "database does not reload from its SQL dump", &format!("{}\n{}\ndump:\n{}", describe(tables), why, text));
     }
 }
 
 fn main() {
-    use DataType as D;
-    use SqlValue as V;
-    try_one("int", D::Integer, V::Integer(5));
-    try_one("int-neg", D::Integer, V::Integer(-5));
-    try_one("int-min", D::Integer, V::Integer(i64::MIN));
-    try_one("int-max", D::Integer, V::Integer(i64::MAX));
-    try_one("small", D::Smallint, V::Smallint(-32768));
-    try_one("small", D::Smallint, V::Smallint(7));
-    try_one("big", D::Bigint, V::Bigint(i64::MIN));
-    try_one("big", D::Bigint, V::Bigint(i64::MAX));
-    try_one("big", D::Bigint, V::Bigint(-9223372036854775807));
-    try_one("uns", D::Unsigned, V::Unsigned(u64::MAX));
-    try_one("uns", D::Unsigned, V::Unsigned(u64::MAX - 1));
-    try_one("uns", D::Unsigned, V::Unsigned(7));
-    try_one("num", D::Numeric { precision: 10, scale: 2 }, V::Numeric(1.5));
-    try_one("num", D::Numeric { precision: 10, scale: 2 }, V::Numeric(3.0));
-    try_one("num", D::Numeric { precision: 10, scale: 2 }, V::Numeric(-1.5));
-    try_one("num-nan", D::Numeric { precision: 10, scale: 2 }, V::Numeric(f64::NAN));
-    try_one("num-inf", D::Numeric { precision: 10, scale: 2 }, V::Numeric(f64::INFINITY));
-    try_one("dec", D::Decimal { precision: 10, scale: 2 }, V::Numeric(1.25));
-    try_one("float", D::Float { precision: 24 }, V::Float(1.5));
-    try_one("float", D::Float { precision: 53 }, V::Float(0.1));
-    try_one("real", D::Real, V::Real(0.1));
-    try_one("real", D::Real, V::Real(3.0));
-    try_one("real", D::Real, V::Real(f32::MAX));
-    try_one("real", D::Real, V::Real(f32::MIN_POSITIVE));
-    try_one("real-nan", D::Real, V::Real(f32::NAN));
-    try_one("dbl", D::DoublePrecision, V::Double(0.1));
-    try_one("dbl", D::DoublePrecision, V::Double(3.0));
-    try_one("dbl", D::DoublePrecision, V::Double(-0.0));
-    try_one("dbl", D::DoublePrecision, V::Double(0.0));
-    try_one("dbl", D::DoublePrecision, V::Double(1e300));
-    try_one("dbl", D::DoublePrecision, V::Double(f64::MAX));
-    try_one("dbl", D::DoublePrecision, V::Double(5e-324));
-    try_one("dbl", D::DoublePrecision, V::Double(1e-7));
-    try_one("dbl", D::DoublePrecision, V::Double(-2.5));
-    try_one("dbl", D::DoublePrecision, V::Double(9007199254740993.0));
-    try_one("dbl", D::DoublePrecision, V::Double(1e19));
-    try_one("dbl-nan", D::DoublePrecision, V::Double(f64::NAN));
-    try_one("dbl-inf", D::DoublePrecision, V::Double(f64::INFINITY));
-    try_one("dbl-ninf", D::DoublePrecision, V::Double(f64::NEG_INFINITY));
-    for s in ["plain", "O'Brien", "a;b", "a\\b", "a\\", "a\\'b", "x\ny", "x\n-- y", "x\r\ny", "", "'", "''", "\"", "a\"b;c", "-- c", "é漢😀", " lead", "trail ", "a\n\nb", "\n", "a\\\\", "\\n"] {
-        try_one("varchar", D::Varchar { max_length: Some(50) }, V::Varchar(s.to_string()));
+    // engine panics are outcomes (caught); a panic of the harness itself must be visible
+    std::panic::set_hook(Box::new(|info| {
+        if std::env::var("VERIF_SHOW_PANICS").is_ok() || info.location().map(|l| !l.file().starts_with('/') || l.file().contains("/verif/")).unwrap_or(false) {
+            eprintln!("harness panic: {}", info);
+        }
+    }));
+    let args = Args::parse("C19");
+    let mut rep = Report::new(
+        &args,
+        "cases: quote = (string value, following text); split = dump-like text; scan = SQL-like text; lit = (column type, value); \
+         db = whole database. Non-trivial: the string contains a quote, backslash, semicolon, line break, double quote or `--`; \
+         the number is negative, whole, beyond 32 bits or special; the database has rows with such content. Distinct by hash of the case.",
+    );
+    rep.assumptions.push("Rust prints a float with the shortest digits that parse back to the same float (documented guarantee); the model represents a finite float by that decimal text".into());
+    rep.assumptions.push("the sign of a floating-point zero is not compared (-0.0 and 0.0 are equal SQL values; the dump writes -0 and the loader reads 0)".into());
+    rep.assumptions.push("supported column types = those whose CREATE TABLE text in the dump parses back to the same type: INTEGER, SMALLINT, BIGINT, NUMERIC(p,s), FLOAT(p), REAL, DOUBLE PRECISION, VARCHAR[(n)], CHAR(n), BOOLEAN, DATE, TIME, TIMESTAMP [WITH TIME ZONE]; CHAR(n) values are n characters long".into());
+    let mut model = args.model();
+    let mut rng = Rng::new(args.seed);
+    let path = args.scratch.join("dump.sql").display().to_string();
+
+    // ---- which column types the dump format can express (recorded, not judged)
+    {
+        use vibesql_types::IntervalField;
+        let others = vec![
+            DataType::Unsigned,
+            DataType::Decimal { precision: 10, scale: 2 },
+            DataType::CharacterLargeObject,
+            DataType::Name,
+            DataType::BinaryLargeObject,
+            DataType::Bit { length: Some(4) },
+            DataType::Time { with_timezone: true },
+            DataType::Interval { start_field: IntervalField::Year, end_field: None },
+        ];
+        let mut unsupported = vec![];
+        for dt in others.iter().chain(supported_types().iter()) {
+            let t = Tbl { name: "T".into(), cols: vec![("A".into(), dt.clone(), true)], rows: vec![] };
+            let ok = matches!(round_trip(&[t], &path), RoundTrip::Same);
+            if !ok {
+                unsupported.push(format!("{:?}", dt));
+            }
+            if !ok && supported_types().contains(dt) {
+                rep.fail(FailKind::Oracle, None, "an empty table of a supported column type does not reload with the same column type", &format!("{:?}", dt));
+            }
+        }
+        rep.extra.insert("column_types_the_dump_cannot_express".into(), json!(unsupported));
     }
-    try_one("varchar-none", D::Varchar { max_length: None }, V::Varchar("abc".to_string()));
-    try_one("char", D::Character { length: 5 }, V::Character("ab   ".to_string()));
-    try_one("char", D::Character { length: 5 }, V::Character("ab".to_string()));
-    try_one("clob", D::CharacterLargeObject, V::Varchar("abc".to_string()));
-    try_one("name", D::Name, V::Varchar("abc".to_string()));
-    try_one("bool", D::Boolean, V::Boolean(true));
-    try_one("bool", D::Boolean, V::Boolean(false));
-    try_one("null", D::Integer, V::Null);
-    try_one("date", D::Date, V::Date(Date::new(2024, 2, 29).unwrap()));
-    try_one("date", D::Date, V::Date(Date::new(1, 1, 1).unwrap()));
-    try_one("time", D::Time { with_timezone: false }, V::Time(Time::new(23, 59, 59, 0).unwrap()));
-    try_one("time", D::Time { with_timezone: false }, V::Time(Time::new(1, 2, 3, 123456789).unwrap()));
-    try_one("time-tz", D::Time { with_timezone: true }, V::Time(Time::new(1, 2, 3, 0).unwrap()));
-    try_one("ts", D::Timestamp { with_timezone: false }, V::Timestamp(Timestamp::new(Date::new(2024, 2, 29).unwrap(), Time::new(1, 2, 3, 5000).unwrap())));
-    try_one("ts-tz", D::Timestamp { with_timezone: true }, V::Timestamp(Timestamp::new(Date::new(2024, 2, 29).unwrap(), Time::new(1, 2, 3, 0).unwrap())));
-    try_one("interval", D::Interval { start_field: vibesql_types::IntervalField::Year, end_field: None }, V::Interval(Interval::new("5".to_string())));
-    try_one("interval", D::Interval { start_field: vibesql_types::IntervalField::Day, end_field: Some(vibesql_types::IntervalField::Second) }, V::Interval(Interval::new("1 02:03:04".to_string())));
-    try_one("blob", D::BinaryLargeObject, V::Varchar("abc".to_string()));
-    try_one("bit", D::Bit { length: Some(4) }, V::Integer(5));
+
+    // ---- deterministic probes
+    let fixed_strings = [
+        "", "plain", "O'Brien", "'", "''", "'''", "a;b", "a\\", "a\\'", "\\'; --", "x\ny", "x\n-- y", "x\n--", "x\r\ny", "\n", "\n\n", "a\n\nb", " \n ", "a\"b;c", "\"", "-- c", "é漢😀",
+        "\u{2028}", " lead", "trail ", "a\\\\", "\\n", "'; DROP TABLE T; --", "?", "NULL", "a\n;\nb", ";", "--", "\r", "x\r", "'\n'",
+    ];
+    let rests = ["", ")", ", 2);", "'", "'x'", " 'y'", "--c\n", ";"];
+    for s in fixed_strings.iter() {
+        for r in rests.iter().take(4) {
+            quote_case(s, r, &path, &mut model, &mut rep);
+        }
+    }
+    // two rows per table so that a statement left unterminated damages the next one
+    for s in fixed_strings.iter() {
+        let t = Tbl {
+            name: "T".into(),
+            cols: vec![("A".into(), DataType::Varchar { max_length: Some(400) }, true), ("B".into(), DataType::Integer, true)],
+            rows: vec![vec![SqlValue::Varchar(s.to_string()), SqlValue::Integer(1)], vec![SqlValue::Varchar(format!("{}{}", s, s)), SqlValue::Integer(-2)]],
+        };
+        db_case(&[t], &path, &mut rep);
+    }
+    // boundary values of every supported type
+    let mut special_seen = 0;
+    for dt in supported_types() {
+        let vals: Vec<SqlValue> = match &dt {
+            DataType::Integer => [0, 1, -1, -5, i64::MIN, i64::MAX, i64::MIN + 1, 1 << 31, -(1 << 31)].iter().map(|i| SqlValue::Integer(*i)).collect(),
+            DataType::Bigint => [0, -2, i64::MIN, i64::MAX, -9223372036854775807].iter().map(|i| SqlValue::Bigint(*i)).collect(),
+            DataType::Smallint => [0, 7, -7, i16::MIN, i16::MAX].iter().map(|i| SqlValue::Smallint(*i)).collect(),
+            DataType::Numeric { .. } => [0.0, 3.0, -3.0, 1.5, -1.5, 1e19, -1e19, 0.001, 123456789.125, f64::NAN, f64::INFINITY, f64::NEG_INFINITY].iter().map(|f| SqlValue::Numeric(*f)).collect(),
+            DataType::Float { .. } => [0.0f32, 1.5, -1.5, 0.1, 3.0, f32::MAX, f32::MIN_POSITIVE, f32::NAN, f32::INFINITY].iter().map(|f| SqlValue::Float(*f)).collect(),
+            DataType::Real => [0.0f32, -0.0, 0.1, -0.1, 3.0, f32::MAX, f32::MIN, 1e-45, f32::NAN, f32::NEG_INFINITY].iter().map(|f| SqlValue::Real(*f)).collect(),
+            DataType::DoublePrecision => [0.0, -0.0, 0.1, -2.5, 3.0, 1e300, f64::MAX, f64::MIN, 5e-324, 1e-7, 9007199254740992.0, 1e19, -9.223372036854775808e18, f64::NAN, f64::INFINITY, f64::NEG_INFINITY]
+                .iter()
+                .map(|f| SqlValue::Double(*f))
+                .collect(),
+            DataType::Varchar { .. } => fixed_strings.iter().map(|s| SqlValue::Varchar(s.to_string())).collect(),
+            DataType::Character { length } => ["", "ab", "a'b", "é", "漢字", "x\ny", "\\"].iter().map(|s| SqlValue::Character(format!("{}{}", s, " ".repeat(length - s.chars().count())))).collect(),
+            DataType::Boolean => vec![SqlValue::Boolean(true), SqlValue::Boolean(false)],
+            DataType::Date => vec![SqlValue::Date(Date::new(2024, 2, 29).unwrap()), SqlValue::Date(Date::new(1, 1, 1).unwrap()), SqlValue::Date(Date::new(9999, 12, 31).unwrap())],
+            DataType::Time { .. } => vec![SqlValue::Time(Time::new(0, 0, 0, 0).unwrap()), SqlValue::Time(Time::new(23, 59, 59, 999_999_999).unwrap()), SqlValue::Time(Time::new(1, 2, 3, 120_000).unwrap())],
+            DataType::Timestamp { .. } => vec![
+                SqlValue::Timestamp(Timestamp::new(Date::new(2024, 2, 29).unwrap(), Time::new(1, 2, 3, 5000).unwrap())),
+                SqlValue::Timestamp(Timestamp::new(Date::new(1, 1, 1).unwrap(), Time::new(0, 0, 0, 0).unwrap())),
+            ],
+            _ => vec![],
+        };
+        literal_case(&dt, &SqlValue::Null, &path, &mut model, &mut rep);
+        for v in vals {
+            let ok = literal_case(&dt, &v, &path, &mut model, &mut rep);
+            if is_special(&v) && !ok {
+                special_seen += 1;
+            }
+        }
+    }
+    rep.extra.insert("special_float_probe_failures".into(), json!(special_seen));
+
+    // ---- generated cases
+    let n = args.n(2000, 40000);
+    for i in 0..n {
+        let mut r = rng.fork();
+        let s = nasty_string(&mut r, 8);
+        let rest = if r.chance(1, 3) { nasty_string(&mut r, 2) } else { r.pick(&rests).to_string() };
+        if i < 2 {
+            rep.sample(json!({"stream": "quote", "value": s, "rest": rest}));
+        }
+        quote_case(&s, &rest, &path, &mut model, &mut rep);
+    }
+    let alphabet: Vec<&str> = vec!["'", "\"", ";", "\n", "\r\n", "--", "-- c", "\\", " ", "\t", "a", "INSERT INTO T VALUES (", ")", ",", "1", "''", "'x'", "\u{a0}", "\u{3000}", ";;", " ;", "\n\n", "é"];
+    for i in 0..args.n(6000, 150000) {
+        let mut r = rng.fork();
+        let k = r.range(0, 14);
+        let text: String = (0..k).map(|_| *r.pick(&alphabet)).collect();
+        if i < 2 {
+            rep.sample(json!({"stream": "split", "text": text}));
+        }
+        split_fuzz_case(&text, &mut model, &mut rep);
+    }
+    let sql_alphabet: Vec<&str> = vec![
+        "'", "''", "\"", "\"\"", "`", "--", "-", " ", " ", "\n", "a", "b1", "a", "x", "(", "'a'", "'a;b'", "\"q\"", "'--'", "_x", "SELECT", "1", "2.5", "1e3", ",", "(", ")", ";", "=", "<=", "<>", "||", "*", "/", "+", ".", "@v", "'it''s'", "\"Id\"", "-- c\n", "é", "x'y", "\t",
+    ];
+    for i in 0..args.n(6000, 150000) {
+        let mut r = rng.fork();
+        let k = r.range(0, 12);
+        let text: String = (0..k).map(|_| *r.pick(&sql_alphabet)).collect();
+        if i < 2 {
+            rep.sample(json!({"stream": "scan", "text": text}));
+        }
+        scan_case(&text, &mut model, &mut rep);
+    }
+    let types = supported_types();
+    for _ in 0..args.n(3000, 60000) {
+        let mut r = rng.fork();
+        let dt = r.pick(&types).clone();
+        let v = gen_value(&mut r, &dt, true, true);
+        literal_case(&dt, &v, &path, &mut model, &mut rep);
+    }
+    for i in 0..args.n(2500, 50000) {
+        let mut r = rng.fork();
+        let allow_special = r.chance(1, 10);
+        let tables = gen_db(&mut r, allow_special);
+        if i < 2 {
+            rep.sample(json!({"stream": "db", "database": describe(&tables)}));
+        }
+        db_case(&tables, &path, &mut rep);
+    }
+    rep.extra.insert("model_requests".into(), json!(model.requests));
+    std::process::exit(rep.finish());
 }
